@@ -201,6 +201,44 @@ pub fn mutate_message(rep: &mut Rep, c: &mut Ctx, msg: &[u8], signal: &[u8], roo
         }
         rep.stratum(format!("rootset|{n}"));
     }
+    // special root sets that do not contain the root: all-zero windows, small constants, duplicates of a wrong
+    // root, the root's bytes at an unaligned offset, a partial trailing element
+    {
+        let zero = enc_fr(&Fr::from(0u64));
+        let mut specials: Vec<(String, Vec<u8>)> = vec![];
+        for n in 1..=4usize {
+            specials.push((format!("zeros*{n}"), zero.repeat(n)));
+        }
+        let consts: Vec<u8> = [Fr::from(0u64), Fr::from(1u64), Fr::from(2u64), -Fr::from(1u64)].iter().flat_map(enc_fr).collect();
+        specials.push(("constants{0,1,2,p-1}".into(), consts));
+        let wrong = enc_fr(&(*root + Fr::from(7u64)));
+        specials.push(("duplicates-of-wrong-root".into(), wrong.repeat(3)));
+        let mut zeros_then_wrong = zero.repeat(2);
+        zeros_then_wrong.extend(&wrong);
+        specials.push(("zero-padded-window".into(), zeros_then_wrong));
+        for off in [1usize, 8, 16, 31] {
+            let mut v = vec![0u8; off];
+            v.extend(enc_fr(root));
+            v.extend(vec![0u8; 32 - off]);
+            specials.push((format!("root-unaligned@{off}"), v));
+        }
+        let mut partial = wrong.clone();
+        partial.extend(&enc_fr(root)[..31]);
+        specials.push(("wrong-root+31-bytes-of-root".into(), partial));
+        for (l, rs) in specials {
+            rep.ev();
+            rep.stratum(format!("rootset-special|{}", l.split('@').next().unwrap().split('*').next().unwrap()));
+            // (an all-zero root is a legitimate root value only if it is the message's root)
+            if *root == Fr::from(0u64) {
+                continue;
+            }
+            let v = v_roots(c, &req, &rs);
+            note_panic(rep, &v);
+            if v == V::True {
+                rep.violation("verify_with_roots:accepts-root-set-without-the-root", json!({"case": label, "root_set": l, "bytes": hex_short(&rs)}));
+            }
+        }
+    }
     // near misses of the root
     for (l, nv) in [("root+1", *root + Fr::from(1u64)), ("root-1", *root - Fr::from(1u64)), ("-root", -*root)] {
         rep.ev();
